@@ -14,11 +14,11 @@ from vmon.ref import geom
 
 ID = 'C19'
 RULE = ('random primitive crystal (all lattice systems, 1-3 orbits, 1-2 species) x random integer supercell matrix with '
-        '|det| in 2..6 x random atom order x noise 1e-10 (default threshold) or 3e-8 with threshold=1e-6 (40 %); non-trivial = every case (the supercell always has >=2 primitive '
+        '|det| in 2..6 x random atom order; one in five P is a two-species cell in which one species alone has a rational sublattice translation (handed over as is or in a |det| 2..3 supercell) x noise 1e-10 (default threshold) or 3e-8 with threshold=1e-6 (40 %); non-trivial = every case (the supercell always has >=2 primitive '
         'cells); distinct = (kind, atoms per species, supercell matrix)')
 ASSUMPTIONS = ['primitivity of P and the reference group order come from an independent brute-force search (tolerance 1e-6)',
                'noise amplitude 1e-10 per coordinate (threshold 1e-8) or 3e-8 (threshold 1e-6; with 1e-7 the symmetry search itself loses operations to its matching tolerance: 22 of 24 found); atoms of the description must lie within 60 x noise (direct-coordinate noise times the supercell size, plus the noise of the reference atom) of atoms of the reduced crystal, up to one common translation']
-REQUIRED_OBS = {'supercells_built': 20, 'noisy_supercells': 20, 'eval:C19:atoms-preserved': 20, 'eval:C19:volume-per-atom': 20, 'eval:C19:group-order': 20}
+REQUIRED_OBS = {'supercells_built': 20, 'pseudo_translation_cells': 10, 'noisy_supercells': 20, 'eval:C19:atoms-preserved': 20, 'eval:C19:volume-per-atom': 20, 'eval:C19:group-order': 20}
 PER_CASE = 5
 
 
@@ -48,6 +48,29 @@ def supercell_atoms(P_latt, P_basis, S, rng, noise=1e-10):
     return P_latt @ S, newbasis
 
 
+def pseudo_spec(rng):
+    """Primitive two-species cell in which ONE species alone has a rational translation (u, u+t[, u+2t] with t = e_k/m) that the other
+    species (m+1..m+2 generic sites) does not share: the candidate translations of the reducer must be vetoed by every species."""
+    for attempt in range(300):
+        dim = 3 if rng.uniform() < 0.6 else 2
+        kinds = gen.LATT3 if dim == 3 else gen.LATT2
+        kind = kinds[int(rng.integers(len(kinds)))]
+        latt = gen.lattice(kind, rng)
+        if abs(np.linalg.det(latt)) < 0.2: continue
+        m = 2 if rng.uniform() < 0.7 else 3
+        t = np.zeros(dim)
+        t[int(rng.integers(dim))] = 1. / m
+        if rng.uniform() < 0.3: t[int(rng.integers(dim))] = 1. / m
+        u = rng.uniform(size=dim)
+        B = [(u + j * t) % 1. for j in range(m)]
+        A = [rng.uniform(size=dim) for _ in range(m + int(rng.integers(1, 3)))]
+        if gen.mindist(latt, A + B) < 0.15: continue
+        basis = [A, B] if rng.uniform() < 0.7 else [B, A]
+        if not geom.is_primitive(latt, basis): continue
+        return {'latt': latt, 'basis': basis, 'kind': 'pseudo-' + kind, 'dim': dim}
+    raise RuntimeError('no pseudo-translation crystal generated')
+
+
 def run_case(case):
     from onsager import crystal
     mon = Mon()
@@ -55,18 +78,28 @@ def run_case(case):
     rng = gen.rng_for(case['seed'], case['idx'], 19)
     sample = None
     for k in range(PER_CASE):
-        spec = gen.rand_crystal_spec(rng, nchem=int(rng.integers(1, 3)), maxatoms=5)
-        P = gen.make_crystal(spec)
+        pseudo = (k == PER_CASE - 1)
+        if pseudo:
+            # sublattice pseudo-translation: the reference P is built WITHOUT the reducer (its primitivity is established independently)
+            spec = pseudo_spec(rng)
+            P = gen.make_crystal(spec, noreduce=True)
+            mon.count('pseudo_translation_cells')
+        else:
+            spec = gen.rand_crystal_spec(rng, nchem=int(rng.integers(1, 3)), maxatoms=5)
+            P = gen.make_crystal(spec)
         if not geom.is_primitive(P.lattice, P.basis):
             mon.count('generator_nonprimitive_P')
             continue
-        if P.N > 5: continue
+        if P.N > 5 and not pseudo: continue
         refG = geom.full_group(P.lattice, P.basis)
         dim = P.dim
         while True:
             S = rng.integers(-2, 3, size=(dim, dim))
             det = int(round(np.linalg.det(S)))
-            if 2 <= abs(det) <= 6: break
+            if pseudo and rng.uniform() < 0.4:
+                S, det = np.eye(dim, dtype=int), 1      # the primitive cell itself is handed to the reducing constructor
+                break
+            if 2 <= abs(det) <= (3 if pseudo else 6): break
         # positions either exact to round-off (noise 1e-10, default threshold 1e-8) or with relaxation-like noise 1e-7 and a user
         # threshold of 1e-6 (copies of one atom then sit on both sides of a reduced-cell face)
         noisy = rng.uniform() < 0.4
